@@ -1665,8 +1665,10 @@ def _np_sqrt(x):
         x = x.rational()
     if isinstance(x, (int, Fraction)) and x == 0:
         return Q(0)
-    if isinstance(x, MQ) and x.is_zero():
+    if hasattr(x, "is_zero") and x.is_zero():
         return Q(0)
+    if isinstance(x, Rat) and x.is_poly() and x.as_poly().is_const():
+        x = x.as_poly().const_value()
     return MQ.sqrt(x)
 
 
@@ -1918,9 +1920,12 @@ def _norm_sqrt(tot):
         t = exact(tot)
         if isinstance(t, Poly) and t.is_const():
             t = t.const_value()
-        if isinstance(t, (int, Fraction)) and t > 0 and "unfactored" in str(e):
-            from math import isqrt
+        from math import isqrt
 
+        if isinstance(t, MQ):
+            # a number of Q(sqrt d): its value to 60 digits
+            t = sum((Fraction(c) * Fraction(isqrt(int(d) * 10**120), 10**60) for d, c in t.t.items()), Fraction(0))
+        if isinstance(t, (int, Fraction)) and t > 0:
             t = Fraction(t)
             scale = 10**120
             return Fraction(isqrt(t.numerator * scale // t.denominator), 10**60)
